@@ -25,6 +25,18 @@ MAX_DEPTH = 14
 OPAQUE_MODULES = ("coxeter.extern.bentley_ottmann",)
 
 
+def ret_tags(*vals):
+    """provenance tags ('ret', callee) / ('len-of', params) carried through tests."""
+    out = set()
+    for v in vals:
+        if v is None:
+            continue
+        for t in v.tags:
+            if isinstance(t, tuple) and t and t[0] in ("ret", "len-of"):
+                out.add(t)
+    return frozenset(out)
+
+
 class AbortPath(Exception):
     """the current path ended inside an inlined callee (it raised on all its paths)."""
 
@@ -214,8 +226,9 @@ class Interp:
         else:
             dim, kind = PARAM.get(name, (TOP, "unknown"))
         loc = ("param", name)
-        v = Val(dim=dim, kind=kind, al=frozenset([loc]), deps=frozenset([loc]), pdeps=frozenset([name]),
-                guardp=frozenset([name]), born=0)
+        scalar = kind in ("float", "int", "bool", "str")
+        v = Val(dim=dim, kind=kind, al=frozenset() if scalar else frozenset([loc]), deps=frozenset([loc]),
+                pdeps=frozenset([name]), guardp=frozenset([name]), born=0)
         if kind in ("float", "int"):
             v.sym = Poly.atom(f"param.{name}")
         return v
@@ -251,6 +264,8 @@ class Interp:
                     bind[p].extra = ("default", dv)
                     if bind[p].kind == "unknown" and dv.kind in ("bool", "none"):
                         bind[p].kind = dv.kind
+                    if self.config.get("assume_defaults") and dv.has_const() and isinstance(dv.const, bool):
+                        bind[p] = vconst(dv.const)
         if a.vararg:
             bind[a.vararg.arg] = Val(kind="tuple", dim=TOP)
         if a.kwarg:
@@ -463,7 +478,8 @@ class Interp:
         return self.join_states(out_t, out_f)
 
     def static_truth(self, tv: Val):
-        if self.config.get("fold_branches", True) and tv.has_const() and isinstance(tv.const, bool) and tv.tags and "static" in tv.tags:
+        if self.config.get("fold_branches", False) and tv.has_const() and isinstance(tv.const, bool) \
+                and (not tv.deps or "static" in tv.tags):
             return tv.const
         return None
 
@@ -480,6 +496,17 @@ class Interp:
 
     def s_For(self, s, st):
         it = self.ev(s.iter, st)
+        if (it.items is not None and 0 < len(it.items) <= 12 and all(i.has_const() for i in it.items)
+                and it.kind in ("list", "tuple") and not s.orelse
+                and not any(isinstance(n, (ast.Break, ast.Continue)) for n in ast.walk(s))):
+            # a loop over a literal display of constants is unrolled (precise getattr / dict keys)
+            cur = st
+            for item in it.items:
+                if cur is None:
+                    break
+                self.assign(s.target, item, cur, s)
+                cur = self.exec_block(s.body, cur)
+            return cur
         elem = self.element_of(it, st, s.iter)
         return self._loop(s, st, elem=elem)
 
@@ -515,6 +542,9 @@ class Interp:
         out2, br2 = one_pass(merged)
         final = self.join_states(merged, out2)
         br3 = []
+        if elem is not None and self.config.get("nonempty_loops"):
+            # iteration over a collection known to be non-empty: the zero-trip path is infeasible
+            final = self.join_states(out1, out2) if (out1 is not None or out2 is not None) else None
         if elem is None:
             # while: normal exit is through a false test
             ex = None
@@ -875,7 +905,7 @@ class Interp:
         if comp is not None:
             return Val(kind="obj", obj=ObjRef(comp, f"{obj.oid}.{attr}"), al=frozenset([loc]), deps=frozenset([loc]), born=0)
         scalar = kind in ("float", "int", "bool")
-        v = Val(dim=dim, kind=kind, al=frozenset() if scalar else frozenset([loc]), deps=frozenset([loc]), born=0)
+        v = Val(dim=dim, kind=kind, al=frozenset() if scalar else frozenset([loc]), deps=frozenset([loc]), born=self.time)
         if kind == "float":
             ss = st.comp.get("__symstore", {})
             if loc in ss:
@@ -934,7 +964,14 @@ class Interp:
             except Exception:
                 pass
         if base.mapping is not None and idx.has_const() and idx.const in base.mapping:
+            if "closed" in base.tags:
+                self.emit(st, "key-read", node, key=idx.const, mapping=base)
             return base.mapping[idx.const]
+        if base.mapping is not None and "closed" in base.tags and idx.has_const():
+            self.emit(st, "key-missing", node, key=idx.const, mapping=base)
+            self.emit(st, "raise", node, exc="KeyError")
+            self.raise_sinks[-1].append(("KeyError", st, node, self.path()))
+            raise AbortPath()
         if base.kind in ("dict",):
             e = base.elem if base.elem is not None else Val()
             return e
@@ -1140,7 +1177,7 @@ class Interp:
             c = NOCONST
             if v.has_const() and isinstance(v.const, bool):
                 c = not v.const
-            out = Val(kind="bool", dim=D0, deps=v.deps, pdeps=v.pdeps, const=c, tags=v.tags & {"static"}, born=self.time)
+            out = Val(kind="bool", dim=D0, deps=v.deps, pdeps=v.pdeps, const=c, tags=ret_tags(v) | (v.tags & {"static"}), born=self.time)
             out.extra = ("not", v)
             return out
         if isinstance(n.op, ast.USub):
@@ -1160,7 +1197,7 @@ class Interp:
         r = None
         for v in vals:
             r = join_vals(r, v)
-        out = Val(kind="bool", dim=D0, deps=r.deps, pdeps=r.pdeps, born=self.time)
+        out = Val(kind="bool", dim=D0, deps=r.deps, pdeps=r.pdeps, born=self.time, tags=ret_tags(*vals))
         out.extra = ("boolop", type(n.op).__name__, vals)
         return out
 
@@ -1177,7 +1214,13 @@ class Interp:
             cur = r
         const = NOCONST
         tags = frozenset()
-        if len(rights) == 1 and left.has_const() and rights[0].has_const():
+        if len(rights) == 1 and isinstance(n.ops[0], (ast.In, ast.NotIn)) and left.has_const() \
+                and rights[0].kind == "dict" and rights[0].mapping is not None and "closed" in rights[0].tags:
+            present = left.const in rights[0].mapping
+            const = present if isinstance(n.ops[0], ast.In) else (not present)
+            tags = frozenset(["static"])
+            self.emit(st, "key-test", n, key=left.const, mapping=rights[0])
+        elif len(rights) == 1 and left.has_const() and rights[0].has_const():
             try:
                 a, b = left.const, rights[0].const
                 op = n.ops[0]
@@ -1192,7 +1235,7 @@ class Interp:
             except Exception:
                 const = NOCONST
         kind = "arr" if "arr" in [left.kind] + [r.kind for r in rights] else "bool"
-        out = Val(kind=kind, dim=D0, deps=deps, pdeps=pdeps, const=const, tags=tags, born=self.time)
+        out = Val(kind=kind, dim=D0, deps=deps, pdeps=pdeps, const=const, tags=ret_tags(left, *rights) | tags, born=self.time)
         out.extra = ("cmp", n, left, rights)
         return out
 
@@ -1296,6 +1339,29 @@ class Interp:
     e_GeneratorExp = e_ListComp
 
     def e_DictComp(self, n, st):
+        if len(n.generators) == 1 and not n.generators[0].ifs:
+            g = n.generators[0]
+            it = self.ev(g.iter, st)
+            pairs = it.extra[1] if (it.extra and isinstance(it.extra, tuple) and it.extra[0] == "items-of") else None
+            if pairs is not None:
+                saved = dict(st.env)
+                mapping = {}
+                ok = True
+                el = None
+                for k, v in pairs:
+                    self.assign(g.target, Val(kind="tuple", items=(vconst(k), v), dim=TOP), st, n)
+                    kv = self.ev(n.key, st)
+                    vv = self.ev(n.value, st)
+                    el = join_vals(el, vv)
+                    if kv.has_const() and isinstance(kv.const, (str, int)):
+                        mapping[kv.const] = vv
+                    else:
+                        ok = False
+                st.env.clear()
+                st.env.update(saved)
+                return Val(kind="dict", mapping=mapping if ok else None, elem=el, dim=D0,
+                           deps=el.deps if el is not None else frozenset(), born=self.time)
+
         def f():
             self.ev(n.key, st)
             return self.ev(n.value, st)
@@ -1374,7 +1440,7 @@ class Interp:
             for a in list(args) + list(kwargs.values()):
                 deps |= a.deps
             self.emit(st, "opaque-call", node, callee=f.fn, args=args)
-            return Val(kind="list", dim=TOP, deps=deps, born=self.time, tags=frozenset(["opaque"]))
+            return Val(kind="list", dim=TOP, deps=deps, born=self.time, tags=frozenset(["opaque", ("ret", f.fn.name)]))
         if f.kind in ("func", "closure"):
             closure = None
             selfv = None
@@ -1391,7 +1457,15 @@ class Interp:
                 fr = self.frames[-1]
                 return Val(kind="super", extra=(fr.fn.cls, fr.selfobj), dim=D0)
             self.stats["ext_calls"] += 1
-            return self.np.call_ext(self, f.ext, node, args, kwargs, st)
+            r = self.np.call_ext(self, f.ext, node, args, kwargs, st)
+            if not r.has_const():
+                extra_t = frozenset([("ret", self.np.canonical(f.ext))]) | (
+                    ret_tags(*args) if f.ext.startswith("builtins.") or f.ext.rsplit(".", 1)[-1] in
+                    ("all", "any", "abs", "isclose", "allclose") else frozenset())
+                r.tags = r.tags | extra_t
+                if r.items is not None:
+                    r.items = tuple(i.copy(tags=i.tags | extra_t) if not i.has_const() else i for i in r.items)
+            return r
         if f.kind == "arrmethod":
             return self.np.call_method(self, f.base, f.name, node, args, kwargs, st)
         if f.kind == "unknown" and f.fn is not None:
@@ -1507,6 +1581,8 @@ class Interp:
                          deps=el.deps if el is not None else frozenset(), born=self.time)
         if result is None:
             result = vconst(None)
+        if fn.name not in ("<lambda>",) and role is None:
+            result = result.copy(tags=result.tags | {("ret", fn.name)})
         self.emit(st, "leave", node, callee=fn, role=role, value=result, noreturn=False,
                   selfobj=bound_self.obj if bound_self is not None else None)
         return result
